@@ -61,10 +61,10 @@ Proof.
   apply ppath_prefix in P. eapply ppath_tc. exact P.
 Qed.
 
-Theorem sink_reaches_all : forall h g r, WF h g -> acyclic h g -> root_nodes h g = [r] ->
+Lemma sink_reaches_all_gen : forall h g r, acyclic h g -> root_nodes h g = [r] ->
   forall x, In x g -> reach h r x.
 Proof.
-  intros h g r W AC ER.
+  intros h g r AC ER.
   assert (ROOT : forall d, In d g -> node_children h g d = [] -> d = r).
   { intros d Hd Hc. assert (X : In d (root_nodes h g)).
     { unfold root_nodes. apply filter_In. split; [exact Hd|]. rewrite Hc. reflexivity. }
@@ -98,6 +98,10 @@ Proof.
   - apply (AC a Ha a (reach_refl _ _)). exact OC.
 Qed.
 
+Theorem sink_reaches_all : forall h g r, WF h g -> acyclic h g -> root_nodes h g = [r] ->
+  forall x, In x g -> reach h r x.
+Proof. intros h g r _. apply sink_reaches_all_gen. Qed.
+
 (* sort_nodes keeps the member set of a well-formed acyclic graph *)
 Theorem sort_nodes_keeps : forall h g g', WF h g -> acyclic h g -> sort_nodes h g = Ok g' ->
   forall x, In x g' <-> In x g.
@@ -109,4 +113,27 @@ Proof.
   destruct (has_cycle h g); [inversion E; subst; auto|].
   intros Hx. destruct (hierarchy_spec _ _ _ E) as [_ [_ [_ RS]]]. apply RS.
   eapply sink_reaches_all; eauto.
+Qed.
+
+(* ... and of every parent-closed graph (a cyclic one is not sorted at all) *)
+Theorem sort_nodes_same_set : forall h g g', heap_ok h -> (forall r, In r g -> r < length h) ->
+  (forall r p, In r g -> In p (pars h r) -> In p g) ->
+  sort_nodes h g = Ok g' -> forall x, In x g' <-> In x g.
+Proof.
+  intros h g g' HK V CL E x. unfold sort_nodes in E.
+  destruct (root_nodes h g) as [|r [|r2 rs]] eqn:ER; try (inversion E; subst; tauto).
+  destruct (negb (closed_b h g)); [discriminate|].
+  destruct (has_cycle h g) eqn:HC; [inversion E; subst; tauto|].
+  assert (Hr : In r g).
+  { assert (X : In r (root_nodes h g)) by (rewrite ER; left; reflexivity).
+    unfold root_nodes in X. apply filter_In in X. tauto. }
+  assert (AC : acyclic h g).
+  { intros m Hm. apply hierarchy_ok_iff; [exact HK|apply V; exact Hm|].
+    unfold has_cycle in HC. destruct (is_ok (hierarchy h m)) eqn:X; [reflexivity|].
+    assert (Y : existsb (fun r => negb (is_ok (hierarchy h r))) g = true).
+    { apply existsb_exists. exists m. split; [exact Hm|]. rewrite X. reflexivity. }
+    congruence. }
+  destruct (hierarchy_spec _ _ _ E) as [_ [_ [_ RS]]]. rewrite RS. split.
+  - intros R. apply (reachP_closed (pars h) (fun y => In y g) r x R Hr). intros y p Hy Hp. eapply CL; eauto.
+  - intros Hx. eapply sink_reaches_all_gen; eauto.
 Qed.
